@@ -132,7 +132,7 @@ def check(prog, rep):
             b, o = (n.body.value if isinstance(n.body, ast.Constant) else None), (n.orelse.value if isinstance(n.orelse, ast.Constant) else None)
             if ("sense == 'minimize'" in t and (b, o) == ("min", "max")) or ("sense == 'maximize'" in t and (b, o) == ("max", "min")):
                 ok = True
-    rep.ob("R07.2", "LinearProgramExtractor.extract_objective", ok, "maps minimize -> 'min', maximize -> 'max'" if ok else "the problem sense is not mapped to 'min'/'max' in the recognised form (or is inverted)", loc=ext.loc, detail="sense-mapping")
+    rep.pin("solution handles", "R07.2", "LinearProgramExtractor.extract_objective", ok, "maps minimize -> 'min', maximize -> 'max'" if ok else "the problem sense is not mapped to 'min'/'max' in the recognised form (or is inverted)", loc=ext.loc, detail="sense-mapping")
 
     # ------------------------------------------------------------------ R07.3 (extractor side)
     ex = prog.cls("LinearProgramExtractor").methods.get("extract")
@@ -156,7 +156,7 @@ def check(prog, rep):
                     comp = k.value
                     uses["LPData.variables"] = isinstance(comp, ast.ListComp) and src(comp.generators[0].iter) == var_name and src(comp.elt).endswith(".name")
     for k, v in uses.items():
-        rep.ob("R07.3", f"LinearProgramExtractor.extract:{k}", v, f"{k} uses the variable list returned by extract_objective ('{var_name}')" if v else f"{k} does not use the variable list that defined the cost vector's columns ('{var_name}')", loc=ex.loc, detail="one-variable-list")
+        rep.pin("LinearProgramExtractor.extract", "R07.3", f"LinearProgramExtractor.extract:{k}", v, f"{k} uses the variable list returned by extract_objective ('{var_name}')" if v else f"{k} does not use the variable list that defined the cost vector's columns ('{var_name}')", loc=ex.loc, detail="one-variable-list")
 
     # ------------------------------------------------------------------ R07.4 handles
     S = prog.cls("Solution")
@@ -171,7 +171,7 @@ def check(prog, rep):
             for st in n.body:
                 if isinstance(st, ast.Assign) and isinstance(st.targets[0], ast.Subscript) and src(st.targets[0].slice) == i and f"[{v}.name]" in src(st.value):
                     ok = src(n.iter.args[0]).endswith("._variables")
-    rep.ob("R07.4", "Solution._get_vector", ok, "result[i] is the value of the i-th variable of the handle" if ok else "the vector handle is not filled position-by-position from enumerate(vec._variables)", loc=gv.loc, detail="position")
+    rep.pin("solution handles", "R07.4", "Solution._get_vector", ok, "result[i] is the value of the i-th variable of the handle" if ok else "the vector handle is not filled position-by-position from enumerate(vec._variables)", loc=gv.loc, detail="position")
     ok = False
     for n in walk_local(gm.node, include_self=False):
         if isinstance(n, ast.Assign) and isinstance(n.targets[0], ast.Subscript) and isinstance(n.targets[0].slice, ast.Tuple):
@@ -186,7 +186,7 @@ def check(prog, rep):
                     p = getattr(p, "_parent", None)
                 rng = dict(loops)
                 ok = rng.get(idx[0], "").endswith(".rows)") and rng.get(idx[1], "").endswith(".cols)")
-    rep.ob("R07.4", "Solution._get_matrix", ok, "result[i, j] is the value of mat[i, j], i over rows, j over cols" if ok else "the matrix handle is not filled as result[i, j] = values[mat[i, j].name] with i over rows and j over cols", loc=gm.loc, detail="position")
+    rep.pin("solution handles", "R07.4", "Solution._get_matrix", ok, "result[i, j] is the value of mat[i, j], i over rows, j over cols" if ok else "the matrix handle is not filled as result[i, j] = values[mat[i, j].name] with i over rows and j over cols", loc=gm.loc, detail="position")
     gi = S.methods.get("__getitem__")
     if gi is None:
         raise AnalysisError("Solution.__getitem__ not found")
@@ -199,7 +199,7 @@ def check(prog, rep):
     want = {"VectorVariable": "_get_vector", "MatrixVariable": "_get_matrix"}
     for k, meth in want.items():
         ok = any(kind == k and any(meth in str(x) for x in acts) for kind, acts in order)
-        rep.ob("R07.4", "Solution.__getitem__", ok, f"{k} handles are answered by {meth}" if ok else f"{k} handles are not dispatched to {meth}", loc=gi.loc, detail=f"dispatch:{k}")
+        rep.pin("solution handles", "R07.4", "Solution.__getitem__", ok, f"{k} handles are answered by {meth}" if ok else f"{k} handles are not dispatched to {meth}", loc=gi.loc, detail=f"dispatch:{k}")
 
     rep.expect_min("R07.1", 2)
     rep.expect_min("R07.2", 3)
